@@ -122,3 +122,58 @@ Proof.
   split; [exact ex_valid|]. split; [intros [|[|t]]; reflexivity|].
   split; vm_compute; reflexivity.
 Qed.
+
+(* ---------------------------------------------------------------------- preserved private state
+   a body that uses a thread-private object like tapkee's heap: it READS it first (expects it empty = 0),
+   mutates it, and resets it before the iteration ends *)
+From TK Require Par_Proof_Restore.
+Definition hkey : key := ("heap", (0%Z, 0%Z)).
+Definition heap_body (i : nat) : prog key Z (list triplet) :=
+  Rd (Pr hkey) (fun v =>
+    Wr (Pr hkey) (v + 7)%Z
+      (Rd (Pr hkey) (fun w =>
+         Wr (Sh (dm i i)) (w + Z.of_nat i)%Z
+           (Wr (Pr hkey) 0%Z Ret)))).
+
+Definition heapP (x : key) : Prop := x = hkey.
+Definition heap_canon : key -> Z := fun _ => 0%Z.
+
+Lemma heap_body_within : forall i, i < 2 -> within (Ad ex_accs i) (Wd ex_accs i) (heap_body i).
+Proof.
+  intros i Hi. cbn. intros v w. split; [|exact I].
+  exists (mkAcc "dm" true false AElem (XIt 0) (XIn (BIt 0) BTop)).
+  cbn. split; [left; reflexivity|]. repeat split; auto; cbn; lia.
+Qed.
+
+Lemma heap_body_reinit : forall i, i < 2 -> reinit heapP (heap_body i).
+Proof.
+  intros i Hi. cbn. split; [reflexivity|]. intros v. split; [left; reflexivity|]. intros w. exact I.
+Qed.
+
+Lemma heap_body_restores : forall i t (st : state key Z (list triplet)), i < 2 ->
+  (forall x, heapP x -> pr st t x = heap_canon x) ->
+  forall x, heapP x -> pr (run key_eqb t i (heap_body i) st) t x = heap_canon x.
+Proof.
+  intros i t st Hi Hc x ->. cbn. unfold updp. rewrite !Nat.eqb_refl. unfold upd.
+  rewrite (proj2 (key_eqb_spec hkey hkey) eq_refl). reflexivity.
+Qed.
+
+(* the generalised theorem applies: every schedule gives dm(i,i) = 7 + i *)
+Theorem ex_heap_restore : forall asg p0 sch qs st,
+  valid_asg 2 asg -> (forall t x, heapP x -> p0 t x = heap_canon x) ->
+  run_sched key_eqb sch (init_queues heap_body asg, mkState ex_m0 p0 []) = (qs, st) ->
+  ~ race qs /\ (done qs -> sh st (dm 0 0) = 7%Z /\ sh st (dm 1 1) = 8%Z).
+Proof.
+  intros asg p0 sch qs st Hasg Hp0 Hrun.
+  destruct (Par_Proof_Restore.bernstein_restore key key_eqb key_eqb_spec Z (list triplet) 2 heap_body
+              (Ad ex_accs) (Wd ex_accs) (region_fp_disjoint ex_accs ex_check 2) heap_body_within
+              heapP heap_canon heap_body_reinit heap_body_restores ex_m0 (fun _ _ => 0%Z) (fun _ _ => eq_refl)
+              asg p0 sch qs st Hasg Hp0 Hrun) as [Hnr Hfin].
+  split; [exact Hnr|]. intros Hd. destruct (Hfin Hd) as (Hown & _). split.
+  - rewrite (Hown 0 (dm 0 0)); [vm_compute; reflexivity|lia|].
+    exists (mkAcc "dm" true false AElem (XIt 0) (XIn (BIt 0) BTop)).
+    cbn. split; [left; reflexivity|]. repeat split; auto; cbn; lia.
+  - rewrite (Hown 1 (dm 1 1)); [vm_compute; reflexivity|lia|].
+    exists (mkAcc "dm" true false AElem (XIt 0) (XIn (BIt 0) BTop)).
+    cbn. split; [left; reflexivity|]. repeat split; auto; cbn; lia.
+Qed.
